@@ -59,7 +59,8 @@ type aPkt struct {
 	TCI      uint16
 	V6       bool
 	Ver      byte // version nibble of the network header (4 / 6 as a rule; the dissector reports whatever is there)
-	// IPv4 (IHL = 5)
+	// IPv4; the header length nibble (IHL) is 5 + len(Opts)/4: 0..40 option octets in multiples of 4 (RFC 791)
+	Opts           []byte
 	TOS            byte
 	TotalLen, ID   uint16
 	Flags          byte   // 3 bits
@@ -178,8 +179,9 @@ func (p *aPkt) encode() []byte {
 		o = sfCat(o, sfBe16(et))
 	}
 	if !p.V6 {
-		o = sfCat(o, []byte{p.Ver<<4 | 5, p.TOS}, sfBe16(p.TotalLen), sfBe16(p.ID), sfBe16(uint16(p.Flags)<<13|p.FragOff),
-			[]byte{p.TTL, byte(p.L4)}, sfBe16(p.Csum), p.Src4[:], p.Dst4[:])
+		// RFC 791: version, IHL (in 32-bit words, options included) …; the options follow the destination address
+		o = sfCat(o, []byte{p.Ver<<4 | byte(5+len(p.Opts)/4), p.TOS}, sfBe16(p.TotalLen), sfBe16(p.ID), sfBe16(uint16(p.Flags)<<13|p.FragOff),
+			[]byte{p.TTL, byte(p.L4)}, sfBe16(p.Csum), p.Src4[:], p.Dst4[:], p.Opts)
 	} else {
 		o = sfCat(o, sfBe32(uint32(p.Ver)<<28|uint32(p.TC)<<20|p.FlowLabel), sfBe16(p.PayLen), []byte{byte(p.L4), p.Hop}, p.Src6[:], p.Dst6[:])
 	}
@@ -281,6 +283,7 @@ func (p *aPkt) expected() *packet.Packet {
 		}
 	}
 	if !p.V6 {
+		// the struct has no IHL / options field: the options only move the transport header (p.Opts is not looked at below)
 		e.L3 = packet.IPv4Header{Version: int(p.Ver), TOS: int(p.TOS), TotalLen: int(p.TotalLen), ID: int(p.ID), Flags: int(p.Flags),
 			FragOff: int(p.FragOff), TTL: int(p.TTL), Protocol: p.L4, Checksum: int(p.Csum),
 			Src: net.IP(p.Src4[:]).String(), Dst: net.IP(p.Dst4[:]).String()}
@@ -475,6 +478,9 @@ func genPkt(r *rand.Rand) *aPkt {
 	}
 	copy(p.Src4[:], rbytes(r, 4))
 	copy(p.Dst4[:], rbytes(r, 4))
+	if !p.V6 && r.Intn(4) == 0 {
+		p.Opts = genIPv4Opts(r)
+	}
 	p.TC, p.FlowLabel, p.PayLen, p.Hop = byte(r.Intn(256)), r.Uint32()&0xfffff, ru16(r), byte(r.Intn(256))
 	p.Src6, p.Dst6 = ipv6Addr(r), ipv6Addr(r)
 	p.L4 = []int{6, 6, 17, 17, 1, 58}[r.Intn(6)]
@@ -482,7 +488,7 @@ func genPkt(r *rand.Rand) *aPkt {
 	p.DataOff, p.TCPFlags, p.Win, p.L4Csum, p.Urg, p.ULen = byte(r.Intn(16)), uint16(r.Intn(512)), ru16(r), ru16(r), ru16(r), ru16(r)
 	p.IType, p.ICode = byte(r.Intn(256)), byte(r.Intn(256))
 	// payload after the L4 header: the sampled header is 0..1500 octets in all
-	base := len((&aPkt{HdrProto: p.HdrProto, HasVlan: p.HasVlan, V6: p.V6, L4: p.L4}).encode())
+	base := len((&aPkt{HdrProto: p.HdrProto, HasVlan: p.HasVlan, V6: p.V6, L4: p.L4, Opts: p.Opts}).encode())
 	var n int
 	switch r.Intn(8) {
 	case 0:
@@ -501,6 +507,42 @@ func genPkt(r *rand.Rand) *aPkt {
 	}
 	p.Rest = rbytes(r, n)
 	return p
+}
+
+// IPv4 options: IHL 6..15, i.e. 4..40 octets in multiples of 4.  Content: random octets, real option
+// encodings (NOP / record route / timestamp / router alert, padded with end-of-list), or octet patterns
+// that read as a plausible transport header (well-known ports, a TCP data offset of 5 with SYN|ACK, an
+// ICMP echo) -- what a dissector that skips a fixed 20 octets would report instead of the wire values
+func genIPv4Opts(r *rand.Rand) []byte {
+	n := 4 * (1 + r.Intn(10))
+	o := rbytes(r, n)
+	switch r.Intn(4) {
+	case 0: // real options
+		o = o[:0]
+		for len(o) < n {
+			switch k := n - len(o); {
+			case k >= 4 && r.Intn(3) == 0:
+				o = append(o, 0x94, 4, 0, 0) // router alert
+			case k >= 8 && r.Intn(2) == 0:
+				l := 3 + 4*(1+r.Intn((k-3)/4))
+				o = append(o, 7, byte(l), 4) // record route, pointer at the first slot
+				o = append(o, rbytes(r, l-3)...)
+			case r.Intn(2) == 0:
+				o = append(o, 1) // no-operation
+			default:
+				o = append(o, make([]byte, k)...) // end of option list + padding
+			}
+		}
+	case 1: // looks like a transport header
+		ports := []uint16{53, 80, 123, 443, 179, 22, 8080, 51000, 65535}
+		fake := sfCat(sfBe16(ports[r.Intn(len(ports))]), sfBe16(ports[r.Intn(len(ports))]), sfBe32(r.Uint32()), sfBe32(r.Uint32()),
+			sfBe16(5<<12|uint16(r.Intn(512))), sfBe16(ru16(r)), sfBe16(ru16(r)), sfBe16(0))
+		if r.Intn(3) == 0 {
+			fake = sfCat([]byte{8, 0}, sfBe16(ru16(r)), sfBe16(ru16(r)), sfBe16(ru16(r)), fake)
+		}
+		copy(o, fake)
+	}
+	return o
 }
 
 func genCounterRec(r *rand.Rand) aRecord {
@@ -683,7 +725,7 @@ func mutate(r *rand.Rand, d []byte) []byte {
 		}
 	case 5: // a sampled header cut short (header length and padding kept consistent elsewhere) or over-long
 		if i := bytes.Index(d, []byte{0x81, 0}); i >= 28 {
-			return d[:i+2+r.Intn(5)]
+			return d[:min(len(d), i+2+r.Intn(5))] // the 81 00 octets may be the datagram's last
 		}
 		return d[:r.Intn(len(d)+1)]
 	case 6: // random octets after a valid start
@@ -894,7 +936,17 @@ func genDissect(r *rand.Rand, n int, w *bufio.Writer) {
 			fmt.Fprintf(w, "dissect %d %s\tW %s\n", proto, hx(h), exp)
 			continue
 		}
-		switch r.Intn(5) {
+		switch r.Intn(6) {
+		case 5: // the IPv4 header-length nibble no longer matches the octets: any IHL 0..15 (below 5 is malformed), header cut anywhere around it
+			if !p.V6 {
+				off := len(h) - len((&aPkt{HdrProto: 11, L4: p.L4, Opts: p.Opts, Rest: p.Rest}).encode())
+				h[off] = h[off]&0xf0 | byte(r.Intn(16))
+				if r.Intn(2) == 0 {
+					h = h[:min(len(h), off+r.Intn(70))]
+				}
+			} else {
+				h = h[:r.Intn(len(h)+1)]
+			}
 		case 0, 1:
 			h = h[:r.Intn(len(h)+1)]
 		case 2:
